@@ -64,6 +64,7 @@ def run_job(job_json):
         cfg = job_json["cfg"]
         opts = dict(job_json["opts"])
         validate = opts.pop("validate", 2)
+        opts.setdefault("wall_budget_s", float(os.environ.get("SYMX_JOB_BUDGET_S", "900")))
         ex = core.Explorer(**opts)
         samples = []
 
